@@ -94,6 +94,7 @@ def shards(tier, seed):
     out.append({'part': 'nearest'})
     # versions are built and compared from several threads (every parse of a grid builds some): all interleavings of
     # two / three threads with up to `bound` preemptions inside hszinc/version.py
+    out.append({'part': 'transport'})
     out.append({'part': 'threads', 'threads': 2, 'bound': 2 if tier == 'quick' else 3})
     out.append({'part': 'threads', 'threads': 3, 'bound': 1 if tier == 'quick' else 2})
     return out
@@ -136,7 +137,75 @@ def check_pair(ctx, Version, a, b):
     ctx.cls('pair', 'cmp=%d' % c, ','.join(feats(a, b)))
 
 
+_TRANSPORT = r'''
+import sys, pickle, copy, warnings, json, base64
+warnings.simplefilter('ignore')
+sys.path.insert(0, sys.argv[1])
+from hszinc.version import Version
+mode = sys.argv[2]
+names = json.loads(sys.argv[3])
+if mode == 'send':
+    vs = [Version(n) for n in names]
+    for v in vs:
+        hash(v); {v: 1}; Version.nearest(v) if True else None     # used the way a program uses them before sending
+    vs += [Version(v) for v in vs[:8]]                               # clones of used versions
+    sys.stdout.write(base64.b64encode(pickle.dumps(vs, 2)).decode('ascii'))
+else:
+    vs = pickle.loads(base64.b64decode(sys.stdin.read()))
+    bad = []
+    for n, v in zip(names + names[:8], vs):
+        w = Version(n)
+        if not (v == w) or (v != w) or hash(v) != hash(w) or len({v, w}) != 1 or str(v) != str(w):
+            bad.append([n, v == w, hash(v) == hash(w), len({v, w})])
+    sys.stdout.write(json.dumps(bad))
+'''
+
+
+def transport_part(ctx):
+    """Versions that have been used (hashed, looked up) are pickled in one interpreter and unpickled in another one
+    whose string hashing is seeded differently (as in a worker pool or an on-disk cache): they are still the versions they
+    spell - equal to, and hashing like, a version built there. In-process copies likewise."""
+    import copy
+    import json
+    import pickle
+    import subprocess
+    from vf import core
+    from hszinc.version import Version
+    names = ['2.0', '3.0', '2', '2.0a', '3.0b', '2.0.1-rc1', '2.5', '10.0', '2.0~', '2.0 ', u'2.0\u00e9', '3', '2.0.0', '1.0', '4.0b2']
+    for n in names:
+        v = Version(n)
+        hash(v)
+        for how, c in (('copy', copy.copy(v)), ('deepcopy', copy.deepcopy(v)), ('pickle', pickle.loads(pickle.dumps(v))), ('clone', Version(v))):
+            ctx.case('transport', how, n)
+            ctx.count('in-process copies compared')
+            w = Version(n)
+            if not (c == w) or hash(c) != hash(w) or len({c, w, v}) != 1 or str(c) != str(w):
+                ctx.violation({'part': 'law', 'kind': 'version', 'symptom': 'law:copy-not-equal', 'features': [how]},
+                              '%s of Version(%r): == %r, hashes equal %r, set size %d' % (how, n, c == w, hash(c) == hash(w), len({c, w, v})),
+                              {'a': n, 'b': n})
+    env1 = dict(core.worker_env(None), PYTHONHASHSEED='1')
+    env2 = dict(core.worker_env(None), PYTHONHASHSEED='2')
+    p1 = subprocess.run([core.PY, '-B', '-c', _TRANSPORT, core.REPO, 'send', json.dumps(names)], env=env1, stdin=subprocess.DEVNULL,
+                        stdout=subprocess.PIPE, stderr=subprocess.PIPE, timeout=300)
+    p2 = subprocess.run([core.PY, '-B', '-c', _TRANSPORT, core.REPO, 'recv', json.dumps(names)], env=env2, input=p1.stdout,
+                        stdout=subprocess.PIPE, stderr=subprocess.PIPE, timeout=300)
+    try:
+        bad = json.loads(p2.stdout.decode('utf-8'))
+    except Exception:
+        ctx.inconc('version transport between interpreters gave no answer: %s' % (p1.stderr + p2.stderr).decode('utf-8', 'replace')[-200:])
+        return
+    ctx.count('versions carried to an interpreter with another hash seed', len(names) + 8)
+    for n, eq, heq, size in bad:
+        ctx.violation({'part': 'law', 'kind': 'version', 'symptom': 'law:hash-eq', 'features': ['unpickled-in-another-interpreter']},
+                      'Version(%r), hashed, pickled and unpickled in an interpreter with another PYTHONHASHSEED: equal to a version built '
+                      'there: %r, same hash: %r, set of both has %d members' % (n, eq, heq, size), {'a': n, 'b': n, 'transport': True})
+    ctx.sample({'transport': names[:5]})
+
+
 def run_shard(spec, ctx):
+    if spec['part'] == 'transport':
+        warnings.simplefilter('ignore')
+        return transport_part(ctx)
     if spec['part'] == 'threads':
         warnings.simplefilter('ignore')
         return threads_part(spec, ctx)
@@ -314,6 +383,8 @@ def threads_part(spec, ctx, overrides=None):
 
 def replay(case, ctx):
     warnings.simplefilter('ignore')
+    if case.get('transport'):
+        return transport_part(ctx)
     if 'overrides' in case:
         threads_part({'threads': case['threads'], 'bound': 0}, ctx, [tuple(x) for x in case['overrides']])
         return
@@ -331,6 +402,8 @@ def finish(ctx, merged):
         ctx.inconclusive.append('pair sweep incomplete: %d of %d' % (got, want))
     if merged['counters'].get('equal pairs hashed', 0) == 0:
         ctx.inconclusive.append('no equal pair was hashed')
+    if merged['counters'].get('versions carried to an interpreter with another hash seed', 0) == 0:
+        ctx.inconclusive.append('the transport part did not run')
     if merged['counters'].get('single-preemption schedules executed', 0) < 20:
         ctx.inconclusive.append('thread schedules: fewer than 20 single-preemption schedules ran')
     if merged['counters'].get('nearest() calls', 0) < n:
